@@ -12,12 +12,17 @@ import (
 func main() {
 	hmodel.RegisterHandlerLevel()
 	ids := hconn.RegisterIds()
+	long := hmodel.LongHarnesses()
 	if hmodel.Dispatch() {
 		return
 	}
 	c := vlib.New("C10", "model_checking")
 	t := &hmodel.Totals{}
 	hmodel.RunHandlerLevel(c, "C10", t, "panic", "deadlock", "livelock")
+	// long deterministic histories at the limits of N (single schedule)
+	for _, name := range long {
+		hmodel.RunHarness(c, "C10", t, name, 0, "panic", "deadlock", "livelock", "leak")
+	}
 	// connection level: the real client connection against a raw peer that records the ids on the wire
 	for _, d := range ids {
 		if !d.Quick && !c.Thorough() {
